@@ -18,7 +18,7 @@ LEVEL_TEXT = ("Static structural proof of necessary conditions: (R12.1) every ke
               "sidecar column < sidecar key < row, row is compared numerically, and sort_issues sorts with a key "
               "function only; (R12.5) replace_tag_references converts every non-container, non-number leaf with str(). "
               "That offsets lie inside the text/span and select the quoted fragment is NOT decided.")
-LEVEL_EXTRA = ''
+LEVEL_EXTRA = 'Added after the seeded evaluation: (R12.6) an issue taken from a list, modified and listed again is a copy.'
 
 ENTRY_POINTS = ["HedValidator.validate", "SidecarValidator.validate", "SpreadsheetValidator.validate",
                 "schema_compliance.check_compliance", "BidsDataset.validate", "Sidecar.validate", "BaseInput.validate"]
